@@ -396,7 +396,7 @@ func c10Run(R *vr.Result, rng *rand.Rand, c c10Cfg, occ map[string]int) {
 	if probesOK {
 		R.Count("configs_probes_ok", 1)
 	}
-	R.Sample(map[string]any{"config": c, "verdict": verdict, "issued": issued, "completed": completed, "max_in_flight": maxInflight, "upgrades_enqueued": enq, "enqueue_at_full_queue": full})
+	R.Sample(map[string]any{"config": c, "verdict": verdict, "issued": atomic.LoadInt64(&issued), "completed": atomic.LoadInt64(&completed), "max_in_flight": atomic.LoadInt64(&maxInflight), "upgrades_enqueued": enq, "enqueue_at_full_queue": full})
 }
 
 // c10Watch waits for done; if nothing completes for 6 ticks while requests are outstanding it inspects the dispatcher.
@@ -413,6 +413,24 @@ func c10Watch(R *vr.Result, name string, done chan struct{}, completed, inflight
 			return "completed"
 		case <-deadline:
 			R.Inconcl("watchdog expired without a proved block: " + name)
+			// keep the evidence: where are the outstanding requests and the dispatcher?
+			var keep []string
+			for _, g := range ovlDump() {
+				for _, f := range g.Frames {
+					if strings.Contains(f, "c10Run") || strings.Contains(f, "dispatchRequests") || strings.Contains(f, "remoteHTTPUpgrade") || strings.Contains(f, "handleWeb") || strings.Contains(f, "handleConnection") {
+						raw := g.Raw
+						if len(raw) > 1500 {
+							raw = raw[:1500]
+						}
+						keep = append(keep, raw)
+						break
+					}
+				}
+				if len(keep) > 40 {
+					break
+				}
+			}
+			R.Set("inconclusive_goroutines:"+name, keep)
 			return "inconclusive"
 		case <-tick.C:
 			cur := atomic.LoadInt64(completed)
